@@ -1946,6 +1946,11 @@ def _handle_assignment_ast(
         if not isinstance(value, (ast.Tuple, ast.List)):
             return None
 
+        if len(value.elts) != len(left_names):
+            raise ValueError(
+                f"cannot unpack {len(value.elts)} value(s) into {len(left_names)} name(s)"
+            )
+
         right_data = [eval_or_expr(elt) for elt in value.elts[: len(left_names)]]
         evaluated_values = [data[2] for data in right_data]
         inferred_types = [
@@ -2497,7 +2502,10 @@ def _parse_simple_lines(
                         if isinstance(value, bool):
                             return 1 if value else 0
                         if isinstance(value, (int, float)):
-                            return int(value)
+                            try:
+                                return int(value)
+                            except (OverflowError, ValueError):
+                                pass  # inf/nan: not foldable, emit the expression instead
                 return _to_c_expr(text, vars, ctx)
 
             pin_value = _resolve_button_pin(pin_arg)
@@ -3061,8 +3069,11 @@ def _parse_simple_lines(
                             pin_value = 1 if value else 0
                             handled = True
                         elif isinstance(value, (int, float)):
-                            pin_value = int(value)
-                            handled = True
+                            try:
+                                pin_value = int(value)
+                                handled = True
+                            except (OverflowError, ValueError):
+                                pass  # inf/nan: not foldable, emit the expression instead
                 if not handled:
                     pin_value = _to_c_expr(pin_arg, vars, ctx)
 
@@ -3105,8 +3116,11 @@ def _parse_simple_lines(
                             pin_value = 1 if value else 0
                             handled = True
                         elif isinstance(value, (int, float)):
-                            pin_value = int(value)
-                            handled = True
+                            try:
+                                pin_value = int(value)
+                                handled = True
+                            except (OverflowError, ValueError):
+                                pass  # inf/nan: not foldable, emit the expression instead
                 if not handled:
                     pin_value = _to_c_expr(pin_arg, vars, ctx)
 
@@ -3178,7 +3192,10 @@ def _parse_simple_lines(
                         if isinstance(value, bool):
                             return 1 if value else 0
                         if isinstance(value, (int, float)):
-                            return int(value)
+                            try:
+                                return int(value)
+                            except (OverflowError, ValueError):
+                                pass  # inf/nan: not foldable, emit the expression instead
                 return _to_c_expr(text, vars, ctx)
 
             body.append(
@@ -3224,7 +3241,10 @@ def _parse_simple_lines(
                         if isinstance(value, bool):
                             return 1 if value else 0
                         if isinstance(value, (int, float)):
-                            return int(value)
+                            try:
+                                return int(value)
+                            except (OverflowError, ValueError):
+                                pass  # inf/nan: not foldable, emit the expression instead
                 return _to_c_expr(text, vars, ctx)
 
             red_value = _resolve_rgb_pin(red_arg)
@@ -3271,7 +3291,10 @@ def _parse_simple_lines(
                         if isinstance(value, bool):
                             return 1 if value else 0
                         if isinstance(value, (int, float)):
-                            return int(value)
+                            try:
+                                return int(value)
+                            except (OverflowError, ValueError):
+                                pass  # inf/nan: not foldable, emit the expression instead
                 return _to_c_expr(text, vars, ctx)
 
             trig_value = _resolve_pin(trig_arg)
